@@ -60,6 +60,8 @@ Variables (f : str) (ps : list str) (body : list stmt) (cenv : list scope) (cbf 
 Hypothesis Hf0 : uname0 f.
 Hypothesis Hfn : ~ In f (fnames FT).
 Hypothesis Hloc : forall x, x <> f -> floc' x = floc x.
+(* the module-level data bindings captured so far / by the new function *)
+Variables (dtab dt' : list (str * (N * N))).
 
 Local Notation funs := (fnames FT).
 Local Notation FT' := (FT ++ [(f, (ps, body))]).
@@ -69,9 +71,10 @@ Lemma funs_sub : forall y, In y funs -> In y funs'.
 Proof. intros y H. rewrite fnames_app. apply in_or_app. now left. Qed.
 
 Lemma def_rel : forall env s g B sc fr tr,
-  Rg [] FT funs fcells None None name (fpins_of FT fcells floc) no_pins env s g ->
+  Rg [] FT funs fcells None None name (fpins_of FT fcells floc) [] dtab no_pins env s g ->
   bound_in FT funs B env -> ~ In f B ->
   locals env = [sc] -> frames g = [fr] ->
+  (forall x c0 c0', In (x, (c0, c0')) dt' -> assoc x sc = Some c0 /\ assoc x (vars fr) = Some c0') ->
   let c := N.of_nat (length (store s)) in
   let c' := N.of_nat (length (cells g)) in
   let env' := {| locals := [assoc_set f c sc]; captured := captured env; cur := cur env |} in
@@ -79,10 +82,10 @@ Lemma def_rel : forall env s g B sc fr tr,
   let g' := {| cells := cells g ++ [VFun (floc' f) cbf]; frames := [{| lab := lab fr; vars := assoc_set f c' (vars fr) |}];
                out := out g; trace := tr |} in
   let fcells' := fcells ++ [(f, (c, c', cenv, cbf))] in
-  Rg [] FT' funs' fcells' None None name (fpins_of FT' fcells' floc') no_pins env' s' g' /\
+  Rg [] FT' funs' fcells' None None name (fpins_of FT' fcells' floc') [] (dtab ++ dt') no_pins env' s' g' /\
   bound_in FT' funs' B env' /\ find_in_function f (frames g) = None /\ lookup_scopes f (locals env) = None.
 Proof.
-  intros [l cap cu] [st ro] [cs fs o tr0] B sc fr tr [Hfr Hb Ho Hbase Hun Hns Hpins Hnd Hfp Hfl Hcur Hcf] HB HfB El Ef.
+  intros [l cap cu] [st ro] [cs fs o tr0] B sc fr tr [Hfr Hb Ho Hbase Hun Hns Hpins Hnd Hfp Hfl Hcur Hcf Hcapd Hdl] HB HfB El Ef Hdt'.
   cbn [locals captured cur store rout cells frames out trace] in *. subst l fs. cbv zeta.
   set (c := N.of_nat (length st)). set (c' := N.of_nat (length cs)).
   assert (Hfu : uname funs f) by (split; assumption).
@@ -161,6 +164,15 @@ Proof.
         cbn [lookup_scopes find_in_function fr' vars app]. rewrite !assoc_set_same. split; reflexivity.
     + exact Hcur.
     + cbn [current_function fr' lab] in *. exact Hcf.
+    + intros x c0 E. discriminate.
+    + intros x c0 c0' Hin k Hk. cbn [length] in Hk. assert (k = 0) by lia. subst k. cbn [skipn app].
+      apply in_app_or in Hin as [Hin|Hin].
+      * destruct (Hdl x c0 c0' Hin 0 ltac:(cbn; lia)) as [H1 H2]. cbn [skipn app] in H1, H2.
+        assert (Hne : x <> f) by (intros ->; congruence).
+        unfold lookup_fs in *. rewrite (Hfind x Hne). cbn [lookup_scopes] in H1 |- *. rewrite assoc_set_other by exact Hne. split; assumption.
+      * destruct (Hdt' x c0 c0' Hin) as [H1 H2].
+        assert (Hne : x <> f) by (intros ->; congruence).
+        unfold lookup_fs. cbn [lookup_scopes find_in_function fr' vars]. rewrite !assoc_set_other by exact Hne. rewrite H1, H2. split; reflexivity.
   - destruct HB as [H1 H2]. split.
     + intros x Hx. cbn [locals]. destruct (list_eq_dec N.eq_dec x f) as [->|Hne].
       * cbn [lookup_scopes]. rewrite assoc_set_same. split; [intros _|discriminate]. right. rewrite fnames_app. apply in_or_app. right. now left.
@@ -174,7 +186,10 @@ End DefRel.
 
 (* ================================================================ the table of the functions defined so far *)
 Record fentry := mkE { fe_f : str; fe_ps : list str; fe_body : list stmt; fe_c : N; fe_c' : N;
-                       fe_env : list scope; fe_cb : option (list (str * N)); fe_loc : str }.
+                       fe_env : list scope; fe_cb : option (list (str * N)); fe_loc : str;
+                       fe_cd : scope;                      (* the data variables it captures: name -> source cell *)
+                       fe_dt : list (str * (N * N));       (* ... with both cells (the module-level bindings) *)
+                       fe_dn : list (N * N) }.             (* the data cell pairs that must be related when it is called *)
 Definition fe_def (e : fentry) : fdef := (fe_f e, (fe_ps e, fe_body e)).
 Definition tFT (T : list fentry) : ftab := map fe_def T.
 Definition tcells (T : list fentry) : list (str * (N * N * list scope * option (list (str * N)))) :=
@@ -182,6 +197,40 @@ Definition tcells (T : list fentry) : list (str * (N * N * list scope * option (
 Definition tlocs (T : list fentry) : list (str * str) := map (fun e => (fe_f e, fe_loc e)) T.
 Definition tloc (T : list fentry) (f : str) : str := match assoc f (tlocs T) with Some l => l | None => [] end.
 Definition tpins (T : list fentry) : pinset := fpins_of (tFT T) (tcells T) (tloc T).
+Definition tdns (T : list fentry) : list (str * list (N * N)) := map (fun e => (fe_f e, fe_dn e)) T.
+Definition tdn (T : list fentry) (f : str) : list (N * N) := match assoc f (tdns T) with Some l => l | None => [] end.
+Definition tdtab (T : list fentry) : list (str * (N * N)) := flat_map fe_dt T.
+Lemma tdtab_app : forall A B, tdtab (A ++ B) = tdtab A ++ tdtab B.
+Proof. intros. unfold tdtab. apply flat_map_app. Qed.
+Lemma tdns_app : forall A B, tdns (A ++ B) = tdns A ++ tdns B.
+Proof. intros. unfold tdns. apply map_app. Qed.
+Lemma tdtab_firstn_in : forall T i j x, i <= j -> In x (tdtab (firstn i T)) -> In x (tdtab (firstn j T)).
+Proof.
+  intros T i j x Hij H. rewrite <- (firstn_skipn i (firstn j T)), tdtab_app. apply in_or_app. left.
+  rewrite firstn_firstn, Nat.min_l by exact Hij. exact H.
+Qed.
+Lemma tdtab_firstn_all : forall T i x, In x (tdtab (firstn i T)) -> In x (tdtab T).
+Proof. intros T i x H. rewrite <- (firstn_skipn i T), tdtab_app. apply in_or_app. now left. Qed.
+Lemma firstn_snoc_nth : forall A (T : list A) j e, nth_error T j = Some e -> firstn j T ++ [e] = firstn (S j) T.
+Proof.
+  intros A. induction T as [|x T IH]; intros j e H; [destruct j; discriminate|]. destruct j as [|j].
+  - cbn in H. inversion H. reflexivity.
+  - cbn [nth_error] in H. cbn [firstn app]. f_equal. exact (IH j e H).
+Qed.
+Lemma uname_snoc : forall funs f x, uname funs x -> x <> f -> uname (funs ++ [f]) x.
+Proof. intros funs f x [H0 Hn] Hne. split; [exact H0|]. intros Hin. apply in_app_or in Hin as [Hin|[Hin|[]]]; [exact (Hn Hin)|congruence]. Qed.
+Lemma fnames_vis_sub : forall caps (P : ftab) y, In y (fnames (vis caps P)) -> In y (fnames P).
+Proof.
+  intros caps P y H. unfold fnames, vis in *. apply in_map_iff in H as (d & E & Hin). apply filter_In in Hin as [Hin _].
+  apply in_map_iff. exists d. auto.
+Qed.
+Lemma assoc_map_key : forall A (h : str -> A) l x c, assoc x (map (fun n => (n, h n)) l) = Some c -> In x l /\ c = h x.
+Proof.
+  intros A h. induction l as [|n l IH]; intros x c H; [discriminate|]. cbn [map assoc] in H.
+  destruct (str_eqb n x) eqn:E.
+  - apply str_eqb_iff in E. subst n. inversion H. split; [now left|reflexivity].
+  - destruct (IH x c H) as [H1 H2]. split; [now right|exact H2].
+Qed.
 
 Lemma tFT_app : forall A B, tFT (A ++ B) = tFT A ++ tFT B.
 Proof. intros. unfold tFT. apply map_app. Qed.
@@ -192,12 +241,13 @@ Proof. intros. unfold tlocs. apply map_app. Qed.
 
 Lemma tcells_find : forall T f x, assoc f (tcells T) = Some x ->
   exists e, In e T /\ fe_f e = f /\ x = (fe_c e, fe_c' e, fe_env e, fe_cb e) /\
-            assoc f (tFT T) = Some (fe_ps e, fe_body e) /\ assoc f (tlocs T) = Some (fe_loc e).
+            assoc f (tFT T) = Some (fe_ps e, fe_body e) /\ assoc f (tlocs T) = Some (fe_loc e) /\
+            assoc f (tdns T) = Some (fe_dn e).
 Proof.
-  induction T as [|e0 T IH]; intros f x H; [discriminate|]. cbn [tcells tFT tlocs map assoc fe_def] in *.
+  induction T as [|e0 T IH]; intros f x H; [discriminate|]. cbn [tcells tFT tlocs tdns map assoc fe_def] in *.
   destruct (str_eqb (fe_f e0) f) eqn:E.
-  - apply str_eqb_iff in E. inversion H; subst. exists e0. split; [now left|]. auto.
-  - destruct (IH f x H) as (e & Hin & H1 & H2 & H3 & H4). exists e. split; [now right|]. auto.
+  - apply str_eqb_iff in E. inversion H; subst. exists e0. split; [now left|]. auto 6.
+  - destruct (IH f x H) as (e & Hin & H1 & H2 & H3 & H4 & H5). exists e. split; [now right|]. auto 6.
 Qed.
 Lemma tcells_keys : forall T f, In f (fnames (tFT T)) <-> assoc f (tcells T) <> None.
 Proof.
@@ -213,10 +263,16 @@ Qed.
 (* what the table must satisfy: every function is in the fragment w.r.t. the earlier ones, its code is in the program,
    and the functions it captures are where its captured environment / captured cells say *)
 Definition entry_ok (prog : program) (pre : list fentry) (e : fentry) : Prop :=
-  fn_ok (tFT pre) (fe_def e) /\
+  fn_ok (tFT pre) (map fst (fe_cd e)) (fe_def e) /\
   assoc (fe_loc e) prog = Some (fcode_of (fe_ps e) (fe_body e)) /\
-  forall f' c c' ce cb', assoc f' (tcells pre) = Some (c, c', ce, cb') -> In f' (caps_of (fe_def e)) ->
-    lookup_scopes f' (fe_env e) = Some c /\ exists m, fe_cb e = Some m /\ assoc f' m = Some c'.
+  (forall f' c c' ce cb', assoc f' (tcells pre) = Some (c, c', ce, cb') -> In f' (caps_of (fe_def e)) ->
+    lookup_scopes f' (fe_env e) = Some c /\ exists m, fe_cb e = Some m /\ assoc f' m = Some c') /\
+  (* the captured data variables: exactly the captured names that are not functions; where they are *)
+  map fst (fe_cd e) = dcaps (tFT pre) (caps_of (fe_def e)) /\
+  (forall x c, assoc x (fe_cd e) = Some c ->
+    uname (fnames (tFT pre)) x /\ lookup_scopes x (fe_env e) = Some c /\
+    exists c' m, fe_cb e = Some m /\ assoc x m = Some c' /\ In (x, (c, c')) (fe_dt e)) /\
+  fe_dn e = map snd (tdtab (pre ++ [e])).
 Definition twf (prog : program) (T : list fentry) : Prop :=
   forall i e, nth_error T i = Some e -> entry_ok prog (firstn i T) e.
 
@@ -245,13 +301,15 @@ Variable T : list fentry.
 Hypothesis HT : twf prog T.
 
 Lemma tcall_ok : forall n i e, i < n -> nth_error T i = Some e -> forall fuel,
-  callee_ok (tpins T) prog fuel (fe_ps e) (fe_body e) (fe_env e) (fe_loc e) (fe_cb e).
+  callee_ok (tpins T) prog fuel (fe_ps e) (fe_body e) (fe_env e) (fe_loc e) (fe_cb e) (fe_dn e).
 Proof.
   induction n as [|n IHn]; intros i e Hi Hnth; [lia|].
   destruct (Nat.eq_dec i n) as [->|Hne]; [|apply (IHn i e); [lia|exact Hnth]].
   set (P := firstn n T). set (ps := fe_ps e). set (body := fe_body e). set (caps := free_vars ps body).
-  destruct (HT n e Hnth) as (Hok & Hcode & Hent0). fold P in Hok, Hent0.
+  destruct (HT n e Hnth) as (Hok & Hcode & Hent0 & Hcdk & Hcdw & Hdne). fold P in Hok, Hent0, Hcdk, Hcdw, Hdne.
+  change (caps_of (fe_def e)) with caps in Hcdk.
   unfold fn_ok, fe_def in Hok. fold ps body caps in Hok. destruct Hok as (Hf & Hndp & Hsrc & Hcaps & Hpn & Hokb & Hsm).
+  rewrite <- Hcdk in Hokb.
   set (FTi := vis caps (tFT P)) in *. set (fci := filter (fun x => mem_str (fst x) caps) (tcells P)).
   assert (ET : T = P ++ skipn n T) by (symmetry; apply firstn_skipn).
   assert (HlenP : length P = n).
@@ -259,17 +317,19 @@ Proof.
   assert (Hentry : forall f' x, assoc f' fci = Some x ->
             In f' caps /\ exists j e', j < n /\ nth_error T j = Some e' /\ In e' P /\ fe_f e' = f' /\
               assoc f' FTi = Some (fe_ps e', fe_body e') /\ assoc f' (tFT T) = Some (fe_ps e', fe_body e') /\
-              assoc f' (tcells T) = Some x /\ x = (fe_c e', fe_c' e', fe_env e', fe_cb e') /\ tloc T f' = fe_loc e').
+              assoc f' (tcells T) = Some x /\ x = (fe_c e', fe_c' e', fe_env e', fe_cb e') /\ tloc T f' = fe_loc e' /\
+              tdn T f' = fe_dn e').
   { intros f' x H. unfold fci in H. rewrite (assoc_filter _ (fun k => mem_str k caps)) in H.
     destruct (mem_str f' caps) eqn:Em; [|discriminate]. split; [now apply mem_str_In|].
-    destruct (tcells_find P f' x H) as (e' & Hin & H1 & H2 & H3 & H4).
+    destruct (tcells_find P f' x H) as (e' & Hin & H1 & H2 & H3 & H4 & H5).
     destruct (In_nth_error _ _ Hin) as [j Hj].
     assert (Hjn : j < n) by (rewrite <- HlenP; apply nth_error_Some; congruence).
     exists j, e'. split; [exact Hjn|]. split; [rewrite ET, nth_error_app1 by lia; exact Hj|]. split; [exact Hin|]. split; [exact H1|].
     split; [unfold FTi, vis; rewrite (assoc_filter _ (fun k => mem_str k caps)), Em; exact H3|].
     split; [rewrite ET, tFT_app; now apply assoc_prefix|].
-    split; [rewrite ET, tcells_app; now apply assoc_prefix|]. split; [exact H2|].
-    unfold tloc. rewrite ET, tlocs_app, (assoc_prefix _ _ _ _ _ H4). reflexivity. }
+    split; [rewrite ET, tcells_app; now apply assoc_prefix|]. split; [exact H2|]. split.
+    - unfold tloc. rewrite ET, tlocs_app, (assoc_prefix _ _ _ _ _ H4). reflexivity.
+    - unfold tdn. rewrite ET, tdns_app, (assoc_prefix _ _ _ _ _ H5). reflexivity. }
   assert (Hfun0i : forall f', In f' (fnames FTi) -> uname0 f').
   { intros f' Hin. apply In_fnames_assoc in Hin. unfold FTi, vis in Hin. rewrite (assoc_filter _ (fun k => mem_str k caps)) in Hin.
     destruct (mem_str f' caps); [|congruence]. apply In_fnames_assoc in Hin. apply (twf_names prog T f' HT).
@@ -289,29 +349,56 @@ Proof.
   { intros f' c c' ce cb' E. destruct (Hentry _ _ E) as (Hin & _).
     unfold fci in E. rewrite (assoc_filter _ (fun k => mem_str k caps)) in E. destruct (mem_str f' caps); [|discriminate].
     exact (Hent0 f' c c' ce cb' E Hin). }
+  assert (Hcdn : forall x c, assoc x (fe_cd e) = Some c ->
+            uname (fnames FTi) x /\ exists c' m, fe_cb e = Some m /\ assoc x m = Some c' /\ In (c, c') (fe_dn e)).
+  { intros x c0 E. destruct (Hcdw x c0 E) as (Hx & _ & c' & m & Em & Ea & Hin).
+    split; [exact (uname_sub _ _ _ (fnames_vis_sub caps (tFT P)) Hx)|]. exists c', m. split; [exact Em|]. split; [exact Ea|].
+    rewrite Hdne, tdtab_app. apply in_map_iff. exists (x, (c0, c')). split; [reflexivity|].
+    apply in_or_app. right. cbn [tdtab flat_map]. rewrite app_nil_r. exact Hin. }
+  assert (Hfdn : forall f' p, In f' (fnames FTi) -> In p (tdn T f') -> In p (fe_dn e)).
+  { intros f' p Hin Hp. apply Hfcki in Hin. destruct (assoc f' fci) as [x|] eqn:Ex; [|congruence].
+    destruct (Hentry _ _ Ex) as (_ & j & e' & Hj & Hnj & _ & _ & _ & _ & _ & _ & _ & Edn). rewrite Edn in Hp.
+    destruct (HT j e' Hnj) as (_ & _ & _ & _ & _ & Hdj). rewrite Hdj, (firstn_snoc_nth _ T j e' Hnj) in Hp.
+    rewrite Hdne, tdtab_app, map_app. apply in_or_app. left.
+    apply in_map_iff in Hp as (y & Ey & Hy). apply in_map_iff. exists y. split; [exact Ey|].
+    unfold P. exact (tdtab_firstn_in T (S j) n y ltac:(lia) Hy). }
   intros fuel. induction fuel as [fuel IHf] using lt_wf_ind.
-  pose proof (fun_sim prog FTi fci (tloc T) (tpins T) Hfun0i Hfcki Hgpvi Hgpsi (fe_cb e)
-                (Some (RClos ps body (fe_env e))) (fe_loc e) ps body (fe_env e)
+  pose proof (fun_sim prog FTi fci (tloc T) Hfun0i Hfcki (fe_cb e)
+                (Some (RClos ps body (fe_env e))) (fe_loc e) (fe_cd e) (tpins T) Hgpvi Hgpsi (fe_dn e) (tdn T) Hcdn Hfdn
+                ps body (fe_env e)
                 (strip (ftail (bitems 1 0 None body))) eq_refl) as HS.
   cbv zeta in HS. fold (fcode_of ps body) in HS.
   assert (Ht : strip (ftail (bitems 1 0 None body)) = [mkI OP_VOID []; mkI OP_RET []] \/
                (strip (ftail (bitems 1 0 None body)) = [] /\ ends_ret body = true)).
   { destruct (strip_ftail (bitems 1 0 None body)) as [H|[H H']]; [now left|right]. split; [exact H|].
-    exact (ends_in_ret_body _ _ (rev ps) 1 0 body Hokb H'). }
-  apply (HS Hcode Ht Hndp Hsrc Hpn Hokb Hsm Hent fuel).
+    exact (ends_in_ret_body _ _ _ (rev ps) 1 0 body Hokb H'). }
+  apply (HS Hcode Ht Hndp Hsrc Hpn Hokb Hsm Hent ltac:(intros x c0 E; exact (proj1 (proj2 (Hcdw x c0 E)))) fuel).
   - intros fuel' _ f' ps' body' c0 c0' cenv' cbf' Eft Efc.
-    destruct (Hentry _ _ Efc) as (_ & j & e' & Hj & Hnj & _ & _ & E3 & _ & _ & Ex & Efl).
-    rewrite E3 in Eft. inversion Eft; subst ps' body'. inversion Ex; subst c0 c0' cenv' cbf'. rewrite Efl.
+    destruct (Hentry _ _ Efc) as (_ & j & e' & Hj & Hnj & _ & _ & E3 & _ & _ & Ex & Efl & Edn).
+    rewrite E3 in Eft. inversion Eft; subst ps' body'. inversion Ex; subst c0 c0' cenv' cbf'. rewrite Efl, Edn.
     exact (IHn j e' Hj Hnj fuel').
   - intros fuel' Hlt. exact (IHf fuel' Hlt).
 Qed.
 
-Lemma tcall_ok_all : forall fuel, call_ok (tFT T) (tcells T) (tloc T) (tpins T) prog fuel.
+Lemma tcall_ok_all : forall fuel, call_ok (tFT T) (tcells T) (tloc T) (tpins T) (tdn T) prog fuel.
 Proof.
   intros fuel f ps body c0 c0' cenv cbf Eft Efc.
-  destruct (tcells_find T f _ Efc) as (e & Hin & H1 & H2 & H3 & H4). rewrite H3 in Eft. inversion Eft; subst ps body.
-  inversion H2; subst. unfold tloc. rewrite H4. destruct (In_nth_error _ _ Hin) as [i Hi].
+  destruct (tcells_find T f _ Efc) as (e & Hin & H1 & H2 & H3 & H4 & H5). rewrite H3 in Eft. inversion Eft; subst ps body.
+  inversion H2; subst. unfold tloc, tdn. rewrite H4, H5. destruct (In_nth_error _ _ Hin) as [i Hi].
   exact (tcall_ok (S i) i e (Nat.lt_succ_diag_r _) Hi fuel).
+Qed.
+
+(* what a function of the table needs related is a captured module-level binding *)
+Lemma tdn_dtab : forall f p, In p (tdn T f) -> exists x, In (x, p) (tdtab T).
+Proof.
+  intros f p Hp. unfold tdn in Hp. destruct (assoc f (tdns T)) as [l|] eqn:E; [|destruct Hp].
+  assert (He : exists i e, nth_error T i = Some e /\ l = fe_dn e).
+  { clear -E. induction T as [|e0 T0 IH]; [discriminate|]. cbn [tdns map assoc] in E. destruct (str_eqb (fe_f e0) f).
+    - inversion E. exists 0, e0. split; reflexivity.
+    - destruct (IH E) as (i & e & Hi & El). exists (S i), e. split; assumption. }
+  destruct He as (i & e & Hi & ->). destruct (HT i e Hi) as (_ & _ & _ & _ & _ & Hd).
+  rewrite Hd, (firstn_snoc_nth _ T i e Hi) in Hp. apply in_map_iff in Hp as ([x q] & Eq & Hin). cbn [snd] in Eq. subst q.
+  exists x. exact (tdtab_firstn_all T (S i) _ Hin).
 Qed.
 End TCall.
 
@@ -335,8 +422,8 @@ Qed.
 Fixpoint mod_ok (FT : ftab) (B : list str) (its : list mitem) : Prop :=
   match its with
   | [] => True
-  | MDef d :: t => fn_ok FT d /\ ~ In (fst d) (fnames FT) /\ ~ In (fst d) B /\ mod_ok (FT ++ [d]) B t
-  | MStmt st :: t => ok_stmt FT None false B st = true /\ mod_ok FT (after B st) t
+  | MDef d :: t => fn_ok FT B d /\ ~ In (fst d) (fnames FT) /\ ~ In (fst d) B /\ mod_ok (FT ++ [d]) B t
+  | MStmt st :: t => ok_stmt FT None [] false B st = true /\ mod_ok FT (after B st) t
   end.
 Fixpoint mdefs (its : list mitem) : ftab :=
   match its with [] => [] | MDef d :: t => d :: mdefs t | MStmt _ :: t => mdefs t end.
@@ -359,15 +446,15 @@ Proof.
   - cbn [map cblock0 mcode mdefs dfbuf length]. rewrite Nat.add_0_r, app_nil_r. destruct st as [fi lr fb]. cbn [lreg fid fbuf] in *. now subst lr.
   - destruct Hok as ((Hf & Hnd & Hsrc & Hcaps & Hpn & Hokb & Hsm) & _ & _ & Hok').
     cbn [map item_stmt cblock0]. unfold def_stmt at 1. cbn [fst snd]. rewrite cstmt_SAssign, cexpr_EFn_eq.
-    rewrite (cblockT_ok path 1 body _ _ false (rev ps) None st Hokb). rewrite Hlr. cbv zeta. cbv beta iota.
+    rewrite (cblockT_ok path 1 body _ _ _ false (rev ps) None st Hokb). rewrite Hlr. cbv zeta. cbv beta iota.
     match goal with |- context [cblock0 path (map item_stmt t) ?st1] => rewrite (IH _ _ st1 Hok' eq_refl) end.
     cbn [fid lreg fbuf mdefs length mcode dfbuf map fst].
     unfold caps_of. cbn [fst snd]. unfold fcode_of. rewrite !strip_app, strip_map_CI. rewrite <- !app_assoc. cbn [app].
     replace (fid st + S (length (mdefs t))) with (S (fid st + length (mdefs t))) by lia. reflexivity.
   - destruct Hok as (Hs & Hok'). cbn [map item_stmt cblock0].
-    rewrite (cstmt_frag path 0 s0 FT None false B None st Hs). rewrite Hlr.
+    rewrite (cstmt_frag path 0 s0 FT None [] false B None st Hs). rewrite Hlr.
     rewrite (IH _ _ _ Hok' Hlr). cbn [mcode mdefs]. rewrite map_app.
-    rewrite (CI_strip _ (sitems_CI FT None 0 s0 B 0 None Hs)). reflexivity.
+    rewrite (CI_strip _ (sitems_CI FT None [] 0 s0 B 0 None Hs)). reflexivity.
 Qed.
 End ModCode.
 
@@ -396,9 +483,10 @@ Variable code : list instr.
 Hypothesis Hsmall : small (2 * length code + 8).
 
 Record minv (T : list fentry) (B : list str) (env : fenv) (s : rstate) (a : act) (g : gstate) : Prop := {
-  mi_R : Rst [] (tFT T) (fnames (tFT T)) (tcells T) None None name (tpins T) no_pins env s a g;
+  mi_R : Rst [] (tFT T) (fnames (tFT T)) (tcells T) None None name (tpins T) [] (tdtab T) no_pins env s a g;
   mi_B : bound_in (tFT T) (fnames (tFT T)) B env;
   mi_wf : twf prog T;
+  mi_dt : forall x cc, In (x, cc) (tdtab T) -> uname (fnames (tFT T)) x;
   mi_one : exists sc fr, locals env = [sc] /\ frames g = [fr];
   mi_cb : a_cb a = None
 }.
@@ -435,7 +523,7 @@ Proof.
     destruct fuel as [|fuel]; [exact Logic.I|]. cbn [map item_stmt]. rewrite exec_block_cons.
     destruct fuel as [|fuel]; [exact Logic.I|]. unfold def_stmt at 1. cbn [fst snd]. rewrite exec_SAssign.
     destruct fuel as [|fuel]; [exact Logic.I|].
-    destruct Hinv as [(HG & Hops & Hss) HB Hwf (sc & fr & El & Ef) Hcb].
+    destruct Hinv as [(HG & Hops & Hss) HB Hwf Hdt (sc & fr & El & Ef) Hcb].
     change (eval (S fuel) env (EFn ps body) s) with (EVal (RClos ps body (locals env ++ captured env)) s).
     set (d := (f, (ps, body)) : fdef) in *.
     cbn [mcode length] in Hc, Hend |- *. apply code_at_cons in Hc as [Hi1 Hc]. apply code_at_cons in Hc as [Hi2 Hc]. cbn [fst d] in Hi2.
@@ -445,13 +533,38 @@ Proof.
     set (cbf := match caps_of d with [] => None | ns => Some (capmap (vars fr) ns) end).
     set (cenv := locals env ++ captured env).
     set (c := N.of_nat (length (store s))).
-    set (e := mkE f ps body c (N.of_nat (length (cells g))) cenv cbf loc).
+    (* the data variables the function captures: bound at module level, in related cells *)
+    set (dcs := dcaps (tFT T) (caps_of d)).
+    set (cellS := fun n : str => match assoc n sc with Some c1 => c1 | None => 0%N end).
+    set (cellV := fun n : str => match assoc n (vars fr) with Some c1 => c1 | None => 0%N end).
+    set (cd := map (fun n => (n, cellS n)) dcs).
+    set (dt := map (fun n => (n, (cellS n, cellV n))) dcs).
+    assert (Hdcs : forall x, In x dcs -> uname (fnames (tFT T)) x /\ assoc x sc = Some (cellS x) /\ assoc x (vars fr) = Some (cellV x)).
+    { intros x Hx. apply In_dcaps in Hx as [Hxc Hxf]. rewrite forallb_forall in Hcaps. specialize (Hcaps x Hxc).
+      unfold d, caps_of in Hxc. cbn [fst snd] in Hxc.
+      rewrite Hxf in Hcaps. cbn [orb] in Hcaps. apply mem_str_In in Hcaps.
+      pose proof (bound_in_look _ _ _ _ x HB Hcaps) as Hlk.
+      assert (Hux : uname (fnames (tFT T)) x).
+      { destruct (Rg_un _ _ _ _ _ _ _ _ _ _ _ _ _ HG x Hlk) as [H|[H|H]]; [exact H| |]; destruct (proj2 HB x Hcaps) as [A B0]; [exact (False_ind _ (A H))|exact (False_ind _ (B0 H))]. }
+      split; [exact Hux|].
+      destruct (Rg_lookup _ _ _ _ _ _ _ _ _ _ _ _ _ x HG Hux Hlk) as (c1 & c1' & v1 & E1 & E2 & _).
+      rewrite El in E1. rewrite Ef in E2. cbn [lookup_scopes] in E1. cbn [find_in_function] in E2. unfold cellS, cellV.
+      destruct (assoc x sc) as [cc|]; [|discriminate]. destruct (assoc x (vars fr)) as [cc'|]; [split; reflexivity|].
+      destruct (special (lab fr)); discriminate. }
+    set (e := mkE f ps body c (N.of_nat (length (cells g))) cenv cbf loc cd dt (map snd (tdtab T ++ dt))).
     (* where the captured functions are *)
     assert (Hwhere : forall f' c0 c0' ce cb', assoc f' (tcells T) = Some (c0, c0', ce, cb') ->
               lookup_scopes f' cenv = Some c0 /\ assoc f' (vars fr) = Some c0').
-    { intros f' c0 c0' ce cb' E. destruct (Rg_flook _ _ _ _ _ _ _ _ _ _ _ HG f' c0 c0' ce cb' E 0 ltac:(rewrite El; cbn; lia)) as [H1 H2].
+    { intros f' c0 c0' ce cb' E. destruct (Rg_flook _ _ _ _ _ _ _ _ _ _ _ _ _ HG f' c0 c0' ce cb' E 0 ltac:(rewrite El; cbn; lia)) as [H1 H2].
       cbn [skipn] in H1, H2. split; [exact H1|]. unfold lookup_fs in H2. rewrite Ef in H2. cbn [find_in_function] in H2.
       destruct (assoc f' (vars fr)) as [c1|]; [congruence|]. destruct (special (lab fr)); discriminate. }
+    assert (Hallcap : forall n, In n (caps_of d) -> assoc n (vars fr) <> None).
+    { intros n Hn. destruct (mem_str n (fnames (tFT T))) eqn:Emf.
+      - assert (Hin : In n (fnames (tFT T))) by (apply mem_str_In; exact Emf).
+        apply tcells_keys in Hin. destruct (assoc n (tcells T)) as [[[[c0 c0'] ce] cb']|] eqn:E; [|congruence].
+        rewrite (proj2 (Hwhere n c0 c0' ce cb' E)). discriminate.
+      - assert (Hin : In n dcs) by (apply In_dcaps; split; [exact Hn|exact Emf]).
+        rewrite (proj2 (proj2 (Hdcs n Hin))). discriminate. }
     (* the machine: make_function *)
     set (fw := VFun loc cbf).
     set (i1 := mkI OP_MAKE_FUNCTION (loc :: caps_of d)) in *.
@@ -463,23 +576,23 @@ Proof.
       destruct (caps_of d) as [|n0 ns0] eqn:Ecaps; [reflexivity|].
       assert (Efr : frames g1 = [{| lab := lab fr; vars := vars fr |}]) by (change (frames g1) with (frames g); rewrite Ef; destruct fr; reflexivity).
       assert (Hlab : lab fr = LFun name).
-      { pose proof (Rg_cf _ _ _ _ _ _ _ _ _ _ _ HG) as Hcf. rewrite Ef in Hcf. cbn [current_function] in Hcf.
+      { pose proof (Rg_cf _ _ _ _ _ _ _ _ _ _ _ _ _ HG) as Hcf. rewrite Ef in Hcf. cbn [current_function] in Hcf.
         destruct (lab fr); try discriminate. inversion Hcf. reflexivity. }
       rewrite Hlab in Efr. fold g1. rewrite (capture_defs a g1 name (vars fr) (n0 :: ns0) Efr); [reflexivity|].
-      intros n Hn. rewrite forallb_forall in Hcaps. unfold caps_of, d in Ecaps. cbn [fst snd] in Ecaps.
-      assert (Hin : In n (fnames (tFT T))) by (apply mem_str_In; apply Hcaps; rewrite Ecaps; exact Hn).
-      apply tcells_keys in Hin. destruct (assoc n (tcells T)) as [[[[c0 c0'] ce] cb']|] eqn:E; [|congruence].
-      rewrite (proj2 (Hwhere n c0 c0' ce cb' E)). discriminate. }
+      intros n Hn. apply Hallcap. exact Hn. }
     (* the relation for the larger table *)
+    assert (Hdtw : forall x c0 c0', In (x, (c0, c0')) dt -> assoc x sc = Some c0 /\ assoc x (vars fr) = Some c0').
+    { intros x c0 c0' Hin. unfold dt in Hin. apply in_map_iff in Hin as (n & En & Hn). inversion En; subst x c0 c0'.
+      exact (proj2 (Hdcs n Hn)). }
     destruct (def_rel name (tFT T) (tcells T) (tloc T) (tloc (T ++ [e])) (tcells_keys T) f ps body cenv cbf Hf0 HfT
-                ltac:(intros x Hx; exact (tloc_snoc_other T e x Hx))
+                ltac:(intros x Hx; exact (tloc_snoc_other T e x Hx)) (tdtab T) dt
                 env s (trc name a1 g1 (mkI OP_STORE [f])) B sc fr (trace (trc name a1 g1 (mkI OP_STORE [f])))
-                ltac:(apply Rg_trc; apply Rg_trc; exact HG) HB HfB El Ef) as (HG' & HB' & Hvn & Hsn).
+                ltac:(apply Rg_trc; apply Rg_trc; exact HG) HB HfB El Ef Hdtw) as (HG' & HB' & Hvn & Hsn).
     cbv zeta in HG', HB'. assert (Eloc : tloc (T ++ [e]) f = loc) by exact (tloc_snoc_same T e HfT). rewrite Eloc in HG'.
     change (cells (trc name a1 g1 (mkI OP_STORE [f]))) with (cells g) in HG'.
     change (out (trc name a1 g1 (mkI OP_STORE [f]))) with (out g) in HG'.
     change (store s) with (store s) in HG'.
-    match type of HG' with Rg _ _ _ _ _ _ _ _ _ ?E ?S ?G => set (env' := E) in *; set (s' := S) in *; set (g2 := G) in * end.
+    match type of HG' with Rg _ _ _ _ _ _ _ _ _ _ _ ?E ?S ?G => set (env' := E) in *; set (s' := S) in *; set (g2 := G) in * end.
     assert (Eas : assign env s f (RClos ps body cenv) = (env', s')).
     { unfold assign. rewrite Hsn. unfold declare, alloc. rewrite El. reflexivity. }
     rewrite Eas.
@@ -494,18 +607,42 @@ Proof.
         rewrite Hvn. unfold bind_local. change (frames (trc name a1 g1 i2)) with (frames g). rewrite Ef.
         reflexivity. }
     (* the new table *)
+    assert (Ecd : map fst cd = dcs).
+    { unfold cd. rewrite map_map. cbn [fst]. apply map_id. }
     assert (He : entry_ok prog T e).
-    { split; [exact Hfok|]. split.
+    { split; [|split; [|split; [|split; [|split]]]].
+      - cbn [fe_cd e]. rewrite Ecd. change (fe_def e) with d. unfold fn_ok, d.
+        split; [exact Hf|]. split; [exact Hndp|]. split; [exact Hsrc|]. split; [|split; [exact Hpn|split; [exact Hokb|exact Hsm]]].
+        rewrite forallb_forall in Hcaps |- *. intros n Hn. destruct (mem_str n (fnames (tFT T))) eqn:Emf; [reflexivity|].
+        cbn [orb]. apply In_mem_str. apply In_dcaps. split; [exact Hn|exact Emf].
       - cbn [fe_loc e fe_ps fe_body]. specialize (Hprog 0 d eq_refl). rewrite Nat.add_0_r in Hprog. exact Hprog.
       - intros f' c0 c0' ce cb' E Hin. cbn [fe_env fe_cb e]. destruct (Hwhere f' c0 c0' ce cb' E) as [H1 H2]. split; [exact H1|].
         unfold cbf. change (fe_def e) with d in Hin. destruct (caps_of d) as [|n0 ns0] eqn:Ecaps; [destruct Hin|].
-        eexists. split; [reflexivity|]. now apply assoc_capmap. }
+        eexists. split; [reflexivity|]. now apply assoc_capmap.
+      - cbn [fe_cd e]. exact Ecd.
+      - intros x c0 E. cbn [fe_cd e] in E. unfold cd in E. apply assoc_map_key in E as [Hx ->].
+        destruct (Hdcs x Hx) as (Hux & Hs & Hv). split; [exact Hux|]. cbn [fe_env fe_cb fe_dt e]. split.
+        + unfold cenv. apply lookup_app_some. rewrite El. cbn [lookup_scopes]. now rewrite Hs.
+        + exists (cellV x). unfold cbf. pose proof (proj1 (In_dcaps _ _ _) Hx) as [Hxc _].
+          destruct (caps_of d) as [|n0 ns0] eqn:Ecaps; [destruct Hxc|].
+          eexists. split; [reflexivity|]. split; [now apply assoc_capmap|].
+          unfold dt. apply in_map_iff. exists x. split; [reflexivity|exact Hx].
+      - cbn [fe_dn e]. rewrite tdtab_app. cbn [tdtab flat_map fe_dt e]. now rewrite app_nil_r. }
     assert (Hinv' : minv (T ++ [e]) B env' s' a2 g2).
     { constructor.
-      - unfold tpins. rewrite !tFT_app, !tcells_app. cbn [tFT tcells map fe_def fe_f fe_ps fe_body fe_c fe_c' fe_env fe_cb e].
+      - unfold tpins. rewrite !tFT_app, !tcells_app, tdtab_app. cbn [tFT tcells tdtab flat_map map fe_def fe_f fe_ps fe_body fe_c fe_c' fe_env fe_cb fe_dt e].
+        rewrite app_nil_r.
         split; [exact HG'|]. split; [reflexivity|]. cbn [env' locals length a2 a1 set_ip set_ops a_ss]. rewrite El in Hss. exact Hss.
       - rewrite tFT_app. exact HB'.
       - apply twf_snoc; assumption.
+      - intros x cc Hin. rewrite tFT_app, fnames_app. cbn [tFT map fe_def fe_f fnames fst e].
+        rewrite tdtab_app in Hin. cbn [tdtab flat_map fe_dt e] in Hin. rewrite app_nil_r in Hin. apply in_app_or in Hin as [Hin|Hin].
+        + apply uname_snoc; [exact (Hdt x cc Hin)|]. intros ->. destruct cc as [c0 c0'].
+          destruct (Rg_dlook _ _ _ _ _ _ _ _ _ _ _ _ _ HG f c0 c0' Hin 0 ltac:(rewrite El; cbn; lia)) as [H1 _].
+          cbn [skipn] in H1. rewrite app_nil_r in H1. congruence.
+        + unfold dt in Hin. apply in_map_iff in Hin as (n & En & Hn). inversion En; subst x.
+          destruct (Hdcs n Hn) as (Hun & Hs & _). apply uname_snoc; [exact Hun|]. intros ->.
+          rewrite El in Hsn. cbn [lookup_scopes] in Hsn. rewrite Hs in Hsn. discriminate.
       - eexists. eexists. split; reflexivity.
       - cbn [a2 a1 set_ip set_ops a_cb]. exact Hcb. }
     (* the rest of the module *)
@@ -523,12 +660,14 @@ Proof.
   - (* a statement of the fragment *)
     destruct Hok as (Hs & Hok').
     destruct fuel as [|fuel]; [exact Logic.I|]. cbn [map item_stmt]. rewrite exec_block_cons.
-    destruct Hinv as [HR HB Hwf (sc & fr & El & Ef) Hcb].
+    destruct Hinv as [HR HB Hwf Hdt (sc & fr & El & Ef) Hcb].
     cbn [mcode] in Hc, Hend |- *. rewrite app_length in Hend |- *. apply code_at_app in Hc as [Hc1 Hc2].
-    pose proof (sitems_CI (tFT T) None 0 st B 0 None Hs) as HCI.
+    pose proof (sitems_CI (tFT T) None [] 0 st B 0 None Hs) as HCI.
     pose proof (strip_CI_length _ HCI) as Hlen.
     pose proof (stmt_sim [] (tFT T) (fnames (tFT T)) (tcells T) (tloc T) None (fun f0 H => H) (fun f0 => twf_names prog T f0 Hwf) (tcells_keys T)
                   None None name ltac:(intros ps0 E; discriminate) (tpins T) (tpins_v T) (tpins_s T)
+                  [] ltac:(intros x c0 E; discriminate) (tdtab T) Hdt (tdn T) []
+                  ltac:(intros f0 p0 _ Hp0; left; exact (tdn_dtab prog T Hwf f0 p0 Hp0)) ltac:(intros p0 [])
                   prog name code 0 Hsmall fuel
                   ltac:(intros fuel' _; apply tcall_ok_all; exact Hwf)
                   ltac:(intros fuel' _ ps0 body0 cenv0 E; discriminate)
@@ -545,7 +684,7 @@ Proof.
       { constructor; try assumption.
         - destruct Hd as [Ht Hne]. rewrite El in Ht. cbn [tl] in Ht. destruct (locals env1) as [|sc1 l1]; [congruence|]. cbn [tl] in Ht. subst l1.
           rewrite Ef in Hf1. cbn [tl] in Hf1. destruct (frames g1) as [|fr1 fs1] eqn:Ef1.
-          + exfalso. exact (proj2 (Rfr_ne _ _ _ _ (Rg_fr _ _ _ _ _ _ _ _ _ _ _ (proj1 HR1))) Ef1).
+          + exfalso. exact (proj2 (Rfr_ne _ _ _ _ (Rg_fr _ _ _ _ _ _ _ _ _ _ _ _ _ (proj1 HR1))) Ef1).
           + cbn [tl] in Hf1. subst fs1. eexists. eexists. split; reflexivity.
         - rewrite (proj2 (proj2 Ha1)). exact Hcb. }
       pose proof (IH T (after B st) env1 s1 a1 g1 fuel (k + length (strip (sitems 0 0 None st))) Hok' Hinv1 Hip1 Hc2 ltac:(lia) Hprog) as H2.
@@ -559,14 +698,14 @@ Proof.
     + destruct H as (m & ? & ? & E & _). discriminate.
     + destruct H as (env'' & a' & g' & R' & Hi & Hop & Hfo & HG' & Ha').
       exists a', g'. split; [exact R'|]. split; [exact Hi|]. split; [exact Hop|].
-      split; [exact (Rg_out _ _ _ _ _ _ _ _ _ _ _ HG')|exact (Rg_drop _ _ _ _ _ _ _ _ _ _ _ HG')].
+      split; [exact (Rg_out _ _ _ _ _ _ _ _ _ _ _ _ _ HG')|exact (Rg_drop _ _ _ _ _ _ _ _ _ _ _ _ _ HG')].
     + exact H.
 Qed.
 End ModRun.
 
 (* ================================================================ whole modules *)
 Lemma Rst_init_t : forall name,
-  Rst [] [] [] [] None None name (tpins []) no_pins {| locals := [[]]; captured := []; cur := None |} {| store := []; rout := [] |}
+  Rst [] [] [] [] None None name (tpins []) [] [] no_pins {| locals := [[]]; captured := []; cur := None |} {| store := []; rout := [] |}
       (act0 name [] None) (push_frame g0 (LFun name)).
 Proof.
   intros name. split; [|split; [reflexivity|cbn; lia]].
@@ -579,6 +718,8 @@ Proof.
   - repeat constructor.
   - split; [intros cy w (f & c0 & ce & cbf & E & _); discriminate|intros c0 v (f & c0' & ce & cbf & ps & body & E & _); discriminate].
   - intros f c0 c0' cenv cbf E. discriminate.
+  - intros x c0 E. discriminate.
+  - intros x c0 c0' [].
 Qed.
 
 Lemma mdefs_length : forall path its k, 2 * length (mdefs its) <= length (mcode path k its).
@@ -629,6 +770,7 @@ Proof.
     - exact (Rst_init_t name).
     - split; [intros x _; cbn; split; [congruence|intros [[]|[]]]|intros x []].
     - intros i e Hi. destruct i; discriminate.
+    - intros x cc [].
     - eexists. eexists. split; reflexivity.
     - reflexivity. }
   pose proof (mod_run path P name mc ltac:(exact Hsm) its [] [] env0 s0 a0 g00 fuel 0 Hok Hinv0 eq_refl
@@ -656,8 +798,8 @@ Proof.
         rewrite Hops. cbn [add_trace frames]. rewrite Hdrop. reflexivity. }
       right. exists (S f0). unfold execute. fold P name. rewrite Hrun. cbn [fst snd gf with_frames frames out add_trace].
       split; [exact Hout|exact Logic.I]. }
-    destruct H as (T' & B' & a' & g' & Hn & Hip & [(HG & Hops & Hss) _ _ (sc & fr & El & Ef) _]).
-    pose proof (Rg_fr _ _ _ _ _ _ _ _ _ _ _ HG) as Hfr. rewrite El, Ef in Hfr. cbn [StmtRel.Rfr] in Hfr. destruct Hfr as [_ Hsp].
+    destruct H as (T' & B' & a' & g' & Hn & Hip & [(HG & Hops & Hss) _ _ _ (sc & fr & El & Ef) _]).
+    pose proof (Rg_fr _ _ _ _ _ _ _ _ _ _ _ _ _ HG) as Hfr. rewrite El, Ef in Hfr. cbn [StmtRel.Rfr] in Hfr. destruct Hfr as [_ Hsp].
     destruct g' as [cs' fs' o' tr']. cbn [frames out] in *. subst fs'.
     destruct (xrun_loop _ _ _ _ _ _ _ Hn) as (N & n & Hloop).
     set (f0 := Nat.max N (n + 1)).
@@ -675,7 +817,7 @@ Proof.
       rewrite Hops. cbn [add_trace frames with_frames drop_to_function cells out trace]. rewrite Hsp. reflexivity. }
     destruct Hrun as [tr'' Hrun]. right.
     exists (S f0). unfold execute. fold P name. rewrite Hrun. cbn [fst snd frames out].
-    split; [exact (Rg_out _ _ _ _ _ _ _ _ _ _ _ HG)|exact Logic.I].
+    split; [exact (Rg_out _ _ _ _ _ _ _ _ _ _ _ _ _ HG)|exact Logic.I].
   - apply fail_post_inv in H. destruct H as [[->| ->]|H]; [left; left; reflexivity|left; right; reflexivity|right].
     destruct H as (e & g' & Hn & Hr & Ho).
     destruct (xfail_loop _ _ _ _ _ _ _ Hn) as (N & n & Hloop).
